@@ -839,7 +839,8 @@ class History:
             # (since the repair F-REFUSEDREKEY a refused change no longer stays in memory: a refusal is recognised as
             # the dependency's doing when the state point it actually built collides with an existing job)
             refused_by_quirk = outcome == "DestinationExistsError" and exists and qid != old_id and (qid in m or self.planted[p].get(qid) == "doc_only")
-            if in_mem is not None and outcome in ("ok", "DestinationExistsError") and (oracle.canon(in_mem) == oracle.canon(quirk_sp) or refused_by_quirk):
+            requested_collides = (not noop) and exists and (new_id in m or self.planted[p].get(new_id) == "doc_only")
+            if in_mem is not None and ((outcome == "ok" and oracle.canon(in_mem) == oracle.canon(quirk_sp)) or (refused_by_quirk and not requested_collides)):
                 self.mm(
                     "sp_reset_type_only",
                     f"{op['op']} {old_sp!r} -> {new_sp!r}: value-type changes were dropped, the job now has {quirk_sp!r}",
@@ -958,9 +959,11 @@ class History:
                     g["stale"] = g["broken"] = True
             return
         for g in self.live():
-            if g["group"] == h["group"] and not g["stale"]:
+            if g["group"] == h["group"]:
+                # (bookkeeping also for shallow copies that are currently retired, e.g. after a remove() through their
+                # original: they share the state point object, and remove()/reset() may bring them back into use)
                 g["sp"] = json.loads(json.dumps(new_sp))
-                if g is not h:
+                if g is not h and not g["stale"]:
                     self.cl.add("shallow_copy_follows")
         for g in self.live():
             if g["group"] == h["group"] and not g["stale"]:
